@@ -6,7 +6,7 @@ from . import schemagen, doccommon as DC
 
 THEOREMS = ['C04_roundtrip: load_doc (xml_parse of the four rendered parts) = expected d, under sections_ok, parseability (doc_ok) and NoDup of the registered style names',
             'C04_load_of_parts, C04_generator (exactly one generator), C04_attach_identity (any tree, any depth), C04_example (the pipeline evaluated on a concrete document)',
-            'not proved: the second-generation package (checked by the oracle only)']
+            'C04_loaded_is_reloaded, C04_second_generation: for a canonical document whose parts use automatic styles of different names, saving the loaded document gives the four parts of the first package byte for byte', 'C04_selection_exact: the selected names are exactly the closure of the references']
 RULE = ('documents of every document class built through the element factories from schema-directed random trees (children from the '
         'content models, attribute values the converters accept, arbitrary text incl. markup characters and CDATA), with automatic styles '
         'referenced from body / master pages / other styles / nowhere, pictures and an embedded sub-document. oracle: the tree of the built '
